@@ -448,6 +448,11 @@ def contracts(tier):
                      assumptions=A + ['is_relevant abstracted (arbitrary '
                                       'verdict per top-level node); input: '
                                       'two top-level nodes']))
+    # theory detection: 'not relevant' only after every sort position of a
+    # declaring command was searched (obligations C14/mutators_*.is_relevant/*
+    # in the contracts that also prove exception freedom for C04)
+    from . import c04
+    cs += c04.is_relevant_contracts(tier)
     return cs
 
 
